@@ -429,7 +429,7 @@ def c_query(q, ans, oprov):
     if k == "utilsFor":
         return "(QUtilsFor %d %s)" % (q[1], c_pairs(ans))
     if k == "allUtils":
-        return "(QAllUtils %d %s)" % (q[1], RC.c_lnat(ans))
+        return "(QAllUtils %d %s)" % (q[1], c_pairs(ans))
     if k == "adapter":
         return "(QAdapter %s %d %d %s)" % (ob(q[1]), q[2], q[3], c_onat(ans))
     if k == "multi":
